@@ -4,8 +4,8 @@ import Pyrealb.Gen.TypConsts
     (ConstituentEn.py:29, ConstituentFr.py:35) and of the READER idioms of a flag (inventory: `Gen/TypConsts`).
 
 `typ` validates a COPY of the caller's dict (`types=dict(types)`, since the fix of DESIGN §9 #5; before it the caller's
-dict itself was pruned and stored): `del types[key]` for an illegal value; an unknown key only warns and STAYS in
-the dict; the copy is then stored (`self.props["typ"] = types`) or merged into the stored one
+dict itself was pruned and stored): `del types[key]` for an illegal value; a value that passes `val in allowedTypes[key]`
+without being a bool or a str (0, 1) is replaced by the boolean it equals; an unknown key only warns and STAYS in the dict; the copy is then stored (`self.props["typ"] = types`) or merged into the stored one
 (`self.props["typ"].update(types)`).  The content of the stored map and of the caller's dict after the call (now:
 unchanged) are modelled. -/
 namespace Pyrealb.Typ
@@ -39,6 +39,8 @@ def validateStep (lang : Lang) (acc : Dict × Nat) (kv : Str × Val) : Dict × N
     if kv.1 = negKey ∧ lang = .fr then
       if !(kv.2.isStr || kv.2.isBool) then (Dict.del acc.1 kv.1, acc.2 + 1) else acc
     else if !(kv.2.pyIn allowed) then (Dict.del acc.1 kv.1, acc.2 + 1)
+    -- `elif not isinstance(val,(bool,str)): types[key]=bool(val)` (6301216): 0 / 1 given for False / True
+    else if !(kv.2.isBool || kv.2.isStr) then (Dict.set acc.1 kv.1 (.b kv.2.truthy), acc.2)
     else acc
 
 /-- the validation loop: the caller's dict afterwards and the number of warnings -/
